@@ -159,7 +159,7 @@ Definition process_audio (s : vfs) (p : pkt) (w : bool) : vfs :=
   let s1 := set_dec s d in
   if negb (pk_gran p =? -1) && negb (pk_eos p) then
     let link := v_link s in
-    let g0 := if link >? 0 then pk_gran p - li_init (cur_link s) else pk_gran p in
+    let g0 := pk_gran p - li_init (cur_link s) in
     let g1 := if g0 <? 0 then 0 else g0 in
     let samples := Z.shiftl (dec_pcmout d) (v_hs s) in
     set_pcm s1 (g1 - samples + base_of s link)
